@@ -31,5 +31,5 @@ COSIM = False
 ASSUMPTIONS = ['metatree: names, entries and varints are tokens of a ghost stream (MDT_DecodeName / MDT_DecodeEntry / MDT_DecodeVarint pop one token; their byte-level codecs are the contracts of unit meta and core); Metadata objects are ghost nodes that record the parent they are attached to; std::vector<MetadataTuple> is a fixed-capacity stack model',
                'the expected stream is produced in the harness from the tree in the order MetadataEncoder::EncodeMetadata writes it (entries, number of sub-metadata, then for every sub-metadata its name followed by its own block): the recursion itself is written in the harness, the loop bodies are the regions under contract in unit meta',
                'metatree.nesting is a bounded stand-in: trees of at most 4 nodes (every shape), at most 1 entry per node']
-J('nesting', 'h_metatree_nesting', ['C11'], unwind=10, unwind_reason='bounded: trees with <= 4 nodes (all shapes), <= 1 entry per node; token stream <= 24 tokens; unwinding assertions on', timeout=900, cost=4)
+J('nesting', 'h_metatree_nesting', ['C11'], unwind=10, unwind_reason='bounded: trees with <= 4 nodes (all shapes), <= 1 entry per node; token stream <= 24 tokens; unwinding assertions on', timeout=2700, cost=9)
 J('guards', 'h_metatree_guards', ['C18', 'C02', 'C11'], unwind=8, unwind_is_claim=True, unwind_reason='bounded: remaining input <= 5 tokens; every loop of the function must be bounded by the remaining input (that is the C18 claim), so an unwinding failure here is a violation; every declared count', timeout=900, cost=3)
